@@ -87,6 +87,8 @@ def plan(tier, seed):
 def detail(node):
     name = node[0]
     if name in ('Pseq', 'Pser', 'Place', 'Placep'):
+        if not 0 <= node[3] < len(node[1]):
+            return 'offset-outside-list'
         return 'offset' if node[3] else 'no-offset'
     if name == 'Pslide':
         return 'wrap' if node[5] else 'nowrap'
@@ -102,6 +104,8 @@ def seq_key(bn, bk, ctx):
         # one mechanism (no lower bound test), several symptoms
         return 'C13/sequence-differs/Pslide/nowrap-position-below-zero'
     d = detail(bn)
+    if d == 'offset-outside-list':
+        return f'C13/sequence-differs/{bn[0]}/offset-outside-list'
     return f'C13/sequence-differs/{bn[0]}' + (f'/{d}' if d else '') + f'/{bk}{ctx}'
 
 
@@ -509,7 +513,7 @@ def _seeded_definition(rng, gen, leaves):
             if len(exp) < 4:
                 continue
             return ('expr ' + gen.show(cand), lambda: m['stm'].stream(cb.build(cand)),
-                    N, (exp, ended))
+                    N, (exp, ended, cand))
         form = 'raw'
     seed = rng.randrange(10 ** 6)
     L = rng.choice([40, 120, 300])
@@ -647,13 +651,15 @@ def run_threads(spec, acc):
                                   dict(w, first_difference_at=first,
                                        lengths=[len(before[k]), len(got[k])]))
                 if model is not None:
-                    exp, ended = model
+                    exp, ended, cand = model
                     acc.count('concurrent_streams_compared_with_model')
                     bad = compare(exp, ended, before[k][:len(exp)] if not ended
                                   else before[k], ended, None)
                     if bad:
-                        acc.violation('C13/seeded-stream-differs/model-' + bad,
-                                      dict(w, model=exp[:16]))
+                        b = blame(cand, leaves)     # the main monitor's key
+                        key = seq_key(b[0], b[1], '') if b else \
+                            'C13/seeded-stream-differs/model-' + bad
+                        acc.violation(key, dict(w, model=exp[:16]))
             # the main time thread must be current again
             if mainmod.main.current_tt is not mainmod.main.main_tt:
                 acc.violation('C13/seeded-stream-differs/current-thread-not-restored',
